@@ -99,13 +99,34 @@ func runOne(ctx context.Context, s solverSpec, file string, timeoutS int) solveR
 
 // Solve races the solvers on one script; the first definite (sat/unsat) answer wins.
 func Solve(workDir, name, script string, timeoutS int, only []string) solveResult {
+	return SolveLite(workDir, name, script, "", timeoutS, only)
+}
+
+// SolveLite races the solvers on the script and, when a lite variant exists, two more solver processes on it; from
+// the lite variant only `unsat` counts.
+func SolveLite(workDir, name, script, lite string, timeoutS int, only []string) solveResult {
 	h := sha256.Sum256([]byte(script))
 	file := filepath.Join(workDir, hex.EncodeToString(h[:8])+".smt2")
 	os.WriteFile(file, []byte(script), 0o644)
 	ctx, cancel := context.WithCancel(context.Background())
 	defer cancel()
-	ch := make(chan solveResult, len(solvers))
+	ch := make(chan solveResult, len(solvers)+2)
 	n := 0
+	if lite != "" && len(only) == 0 {
+		lfile := filepath.Join(workDir, hex.EncodeToString(h[:8])+".lite.smt2")
+		os.WriteFile(lfile, []byte(lite), 0o644)
+		for _, s := range []solverSpec{{name: "z3-new"}, {name: "cvc5"}} {
+			n++
+			go func(s solverSpec) {
+				r := runOne(ctx, s, lfile, timeoutS)
+				r.solver = s.name + "(lite)"
+				if r.res != "unsat" {
+					r.res = "unknown"
+				}
+				ch <- r
+			}(s)
+		}
+	}
 	for _, s := range solvers {
 		if len(only) > 0 {
 			ok := false
@@ -175,7 +196,7 @@ func SolveAll(workDir string, obls []*Obligation, timeoutS, par int) {
 			if o.Cover {
 				t = 2 // covers/canaries only need "not unsat"
 			}
-			r := Solve(workDir, o.Name, o.Script, t, nil)
+			r := SolveLite(workDir, o.Name, o.Script, o.Lite, t, nil)
 			o.Result, o.Solver, o.Ms = r.res, r.solver, r.ms
 			if r.res == "sat" || r.res == "error" {
 				o.Model = r.out
